@@ -10,15 +10,15 @@ EXTENDS TrustStoreOps, TLC, Json
 
 Trace == ndJsonDeserialize("trace.ndjson")
 
-VARIABLES l, pool, trcs, nok, nret, ngrace
-vars == <<l, pool, trcs, nok, nret, ngrace>>
+VARIABLES l, pool, trcs, nok, nret, ngrace, nhist, nstale
+vars == <<l, pool, trcs, nok, nret, ngrace, nhist, nstale>>
 R == Trace[l]
 RangeOf(s) == {s[i] : i \in 1..Len(s)}
 Certs == [i \in 1..Len(pool) |-> pool[i]]
 Known(chain) == \A i \in 1..Len(chain) : chain[i] >= 1 /\ chain[i] <= Len(pool)
 TRCOf(k) == [trcs[k] EXCEPT !.roots = RangeOf(@)]
 
-Init == l = 1 /\ pool = <<>> /\ trcs = <<>> /\ nok = 0 /\ nret = 0 /\ ngrace = 0
+Init == l = 1 /\ pool = <<>> /\ trcs = <<>> /\ nok = 0 /\ nret = 0 /\ ngrace = 0 /\ nhist = 0 /\ nstale = 0
 Bad(key) == PrintT(<<"VERIF-BAD", l, key>>)
 
 Verify ==
@@ -27,7 +27,7 @@ Verify ==
     /\ (R.ok = 1 /\ ok /\ ~ChainStrict(Certs, R.chain, TRCOf(R.trc), R.t)) => PrintT(<<"VERIF-DRIFT", l, "leaf-not-valid-at-time">>)
     /\ (R.ok = 0 /\ Known(R.chain) /\ ChainStrict(Certs, R.chain, TRCOf(R.trc), R.t)) => PrintT(<<"VERIF-DRIFT", l, "good-chain-refused">>)
     /\ nok' = nok + (IF R.ok = 1 /\ ok THEN 1 ELSE 0)
-    /\ UNCHANGED <<nret, ngrace>>
+    /\ UNCHANGED <<nret, ngrace, nhist, nstale>>
 
 Provider ==
     LET tl == R.tl
@@ -46,19 +46,50 @@ Provider ==
           => PrintT(<<"VERIF-DRIFT", l, "verifiable-chain-withheld">>)
     /\ nret' = nret + Len(R.ret) - Cardinality(bad)
     /\ ngrace' = ngrace + Cardinality(viaPred)
-    /\ UNCHANGED nok
+    /\ UNCHANGED <<nok, nhist, nstale>>
+
+(* TRC update during operation (history): the store holds S1 and the chains db; get1 = chains handed
+   out; then NotifyTRC brings S2 of time line tl (latest = serial of the latest TRC afterwards); get2 =
+   chains handed out then.  v1 / v2: a verifier with its real chain cache checks a message signed with
+   the chain under the old root before / after the update, v3: a fresh verifier without cache after
+   the update (-1: not applicable).  Monitor: every hand-out of the provider satisfies ProviderOK for
+   the TRCs in the store at that moment; a verifier without cache accepts only such chains.  A hit in
+   the verifier's cache after the update is drift (bounded staleness, see ProviderCache.tla).      *)
+History ==
+    LET tl == R.tl
+        S1 == [serial |-> 1, base |-> 1, nb |-> tl.nb1, na |-> tl.na1, grace |-> 0, roots |-> {1}]
+        S2 == [serial |-> 2, base |-> 1, nb |-> tl.nb2, na |-> tl.na2, grace |-> tl.grace, roots |-> {2}]
+        supplied == RangeOf(R.db)
+        rule1(ch) == IF ~Known(ch) THEN "unknown-chain" ELSE IF ch \notin supplied THEN "chain-from-nowhere"
+                     ELSE ProviderRule(Certs, ch, S1, S1, FALSE, 0)
+        rule2(ch) == IF ~Known(ch) THEN "unknown-chain" ELSE IF ch \notin supplied THEN "chain-from-nowhere"
+                     ELSE IF R.latest = 2 THEN ProviderRule(Certs, ch, S2, S1, TRUE, 0)
+                     ELSE ProviderRule(Certs, ch, S1, S1, FALSE, 0)
+        old == <<7, 4>> IN
+    /\ \A i \in 1..Len(R.get1) : rule1(R.get1[i]) # "" => Bad("history-before-update:" \o rule1(R.get1[i]))
+    /\ \A i \in 1..Len(R.get2) : rule2(R.get2[i]) # "" => Bad("history-after-update:" \o rule2(R.get2[i]))
+    /\ (R.v3 = 1 /\ rule2(old) # "") => Bad("history-verifier-accepts:" \o rule2(old))
+    /\ (R.v1 = 1 /\ rule1(old) # "") => Bad("history-verifier-accepts-before-update:" \o rule1(old))
+    /\ (R.v2 = 1 /\ rule2(old) # "") => PrintT(<<"VERIF-DRIFT", l, "verifier-cache-hands-out-stale-chain">>)
+    /\ R.latest # 2 => PrintT(<<"VERIF-DRIFT", l, "trc-update-not-stored">>)
+    /\ nhist' = nhist + Len(R.get2)
+    /\ nstale' = nstale + (IF R.v2 = 1 /\ rule2(old) # "" THEN 1 ELSE 0)
+    /\ UNCHANGED <<nok, nret, ngrace>>
 
 Step == /\ l <= Len(Trace)
         /\ l' = l + 1
-        /\ CASE R.ev = "reset" -> pool' = R.pool /\ trcs' = R.trcs /\ UNCHANGED <<nok, nret, ngrace>>
+        /\ CASE R.ev = "reset" -> pool' = R.pool /\ trcs' = R.trcs /\ UNCHANGED <<nok, nret, ngrace, nhist, nstale>>
+             [] R.ev = "history" -> History /\ UNCHANGED <<pool, trcs>>
              [] R.ev = "verify" -> Verify /\ UNCHANGED <<pool, trcs>>
              [] R.ev = "provider" -> Provider /\ UNCHANGED <<pool, trcs>>
-             [] OTHER -> Bad("no-spec-action:" \o R.ev) /\ UNCHANGED <<pool, trcs, nok, nret, ngrace>>
+             [] OTHER -> Bad("no-spec-action:" \o R.ev) /\ UNCHANGED <<pool, trcs, nok, nret, ngrace, nhist, nstale>>
 
 Done == /\ l = Len(Trace) + 1
         /\ PrintT(<<"VERIF-STAT", "verified", nok>>)
         /\ PrintT(<<"VERIF-STAT", "handed_out", nret>>)
         /\ PrintT(<<"VERIF-STAT", "handed_out_via_grace", ngrace>>)
+        /\ PrintT(<<"VERIF-STAT", "handed_out_after_update", nhist>>)
+        /\ PrintT(<<"VERIF-STAT", "stale_cache_accepts", nstale>>)
         /\ PrintT(<<"VERIF-DONE", Len(Trace)>>)
         /\ UNCHANGED vars
 
